@@ -84,6 +84,7 @@ def enumerate_cases(tier):
     # overlapping symbols of the history's own, declared in every order with look-ups in between
     for perm in range(24):
         cases.append({"steps": [["overlap", 0, 0, perm, 0]]})
+        cases.append({"steps": [["overlap", 0, 0, perm, 1 + perm % 3]]})   # ... named after anonymous creation
     # the anonymous-then-named prefix shapes for every shipped prefix exponent
     for e in (-1, 1, 2, -2, 3, -3, 6, 10, 20):
         for base in (10, 2):
@@ -445,8 +446,12 @@ def run_case(case) -> core.Outcome:
                     elif one == 1 and "vfov xy" not in m.Unit._by_name:
                         units.append(m.Unit.define(m.Mass, "vfov xy", "xy"))
                     elif one == 2:
+                        if d % 2:
+                            m.Prefix(7, 5) * m.Prefix(7, 6)   # the prefix exists anonymously before it is named
                         m.Prefix(7, 11, name="vfov long", symbol="vqx")
                     elif one == 3:
+                        if d % 3 == 1:
+                            m.Prefix(7, 12)
                         m.Prefix(7, 12, name="vfov short", symbol="vq")
                     for text in OVERLAP_TEXTS:
                         for fn in (m.Unit.resolve_symbol, m.Unit.parse):
